@@ -340,7 +340,9 @@ func (g *gen) sliceHistory() string {
 		case 5:
 			ops = append(ops, "jl")
 		case 6:
-			if g.r.Chance(40) {
+			if g.r.Chance(5) {
+				ops = append(ops, "jslneg")
+			} else if g.r.Chance(40) {
 				ops = append(ops, fmt.Sprintf("jsl:%d", g.r.Intn(12)))
 			} else {
 				ops = append(ops, fmt.Sprintf("jd:%d", idx))
@@ -427,8 +429,8 @@ func (g *gen) mapHistory() string {
 
 func (g *gen) structHistory() string {
 	st := g.structType(2)
-	for strings.Contains(st, "P(S(") || strings.Contains(st, "P(M(") {
-		// reading a *slice / *map field throws TypeError "invalid value" in toValue (not modelled)
+	for strings.Contains(st, "P(S(") || strings.Contains(st, "P(M(") || strings.Contains(st, "P(any)") {
+		// reading a non-nil *slice / *map / *interface{} field throws TypeError "invalid value" in toValue (not modelled)
 		st = g.structType(2)
 	}
 	var ops []string
